@@ -17,6 +17,7 @@ type OptDef struct {
 	Required  int      `json:"required,omitempty"` // 0 no, 1 yes, 2 with custom message
 	Valid     []string `json:"valid,omitempty"`
 	Suggested []string `json:"suggested,omitempty"`
+	SuggFn    bool     `json:"suggested_values_fn,omitempty"` // SuggestedValuesFn: a callback computing value completions (its calls are logged)
 	Env       string   `json:"env,omitempty"`
 	ArgName   string   `json:"arg_name,omitempty"`
 	Min       int      `json:"min,omitempty"`
@@ -34,6 +35,7 @@ type CmdDef struct {
 	Unknown      int      `json:"unknown_mode,omitempty"` // -1 = inherit (0 is a mode), stored +1
 	SelfName     string   `json:"self_name,omitempty"`    // Self(name, description) called on the command: its display name in help
 	ArgComp      []string `json:"arg_completions,omitempty"`
+	ArgCompFns   int      `json:"arg_completion_fns,omitempty"` // number of ArgCompletionsFns callbacks (overlapping results, calls are logged)
 	Synopsis     []string `json:"synopsis_args,omitempty"`
 }
 
@@ -153,6 +155,9 @@ func genOpts(r *simrt.RNG, taken map[string]bool, n int, reqBias int) []OptDef {
 		if r.Intn(6) == 0 {
 			o.ArgName = "thing"
 		}
+		if o.Kind >= 2 && r.Intn(8) == 0 {
+			o.SuggFn = true
+		}
 		out = append(out, o)
 	}
 	return out
@@ -189,6 +194,9 @@ func genCmd(r *simrt.RNG, name string, taken map[string]bool, depth int, reqBias
 	}
 	if r.Intn(5) == 0 {
 		c.Synopsis = []string{"<file>", "<dir>"}[:1+r.Intn(2)]
+	}
+	if r.Intn(6) == 0 {
+		c.ArgCompFns = 1 + r.Intn(2)
 	}
 	if depth < 2 && r.Intn(3) == 0 {
 		used := map[string]bool{}
